@@ -119,6 +119,10 @@ func (psh PartSetHeader) ValidateBasic() error {
 	if err := ValidateHash(psh.Hash); err != nil {
 		return fmt.Errorf("wrong Hash: %w", err)
 	}
+	// Receivers size bit arrays and part slices by Total before anything vouches for it.
+	if psh.Total > MaxBlockPartsCount {
+		return fmt.Errorf("too many parts: %d, max: %d", psh.Total, MaxBlockPartsCount)
+	}
 	return nil
 }
 
